@@ -43,7 +43,7 @@ func (C12) Assumptions() []string {
 func (C12) Components() map[string]string {
 	return map[string]string{
 		"pkg/ggql (executable parser, resolver, reflection binding, introspection)": "real, instrumented scratch copy",
-		"caller goroutines": "real goroutines, one runnable at a time, picked by the tape",
+		"caller goroutines":      "real goroutines, one runnable at a time, picked by the tape",
 		"data graph / resolvers": "stub (harness zoo: Go structs + methods for reflection, wrappers for the interface and any strategies)",
 		"race oracle":            "Go race detector with hand-offs hidden by runtime.RaceDisable + deterministic vector clocks over lock events",
 	}
